@@ -302,14 +302,17 @@ func raceGCS(seed int64) {
 	var wg sync.WaitGroup
 	for g := 0; g < nG; g++ {
 		lr := rand.New(rand.NewSource(seed*37 + int64(g)))
+		g := g
 		wg.Add(1)
 		go func() {
 			defer wg.Done()
 			for i := 0; i < 20; i++ {
 				name := fmt.Sprintf("o%d", lr.Intn(6))
-				switch lr.Intn(14) {
+				switch lr.Intn(16) {
 				case 0, 1:
-					do("POST", "/upload/storage/v1/b/bkt/o", url.Values{"uploadType": {"media"}, "name": {name}}, map[string]string{"Content-Type": "text/plain"}, []byte(fmt.Sprintf("c%d", i)))
+					// content type and bytes carry the same version tag
+					tag := fmt.Sprintf("g%di%d", g, i)
+					do("POST", "/upload/storage/v1/b/bkt/o", url.Values{"uploadType": {"media"}, "name": {name}}, map[string]string{"Content-Type": "text/x-" + tag}, []byte("content-"+tag))
 				case 2:
 					do("GET", "/storage/v1/b/bkt/o/"+name, url.Values{"alt": {"json"}}, nil, nil)
 				case 3:
@@ -322,6 +325,22 @@ func raceGCS(seed int64) {
 					do("GET", "/storage/v1/b/bkt/o", url.Values{"delimiter": {"/"}, "maxResults": {"3"}}, nil, nil)
 				case 7:
 					do("POST", "/storage/v1/b/bkt/o/"+name+"/rewriteTo/b/bkt/o/"+fmt.Sprintf("o%d", lr.Intn(6)), nil, nil, nil)
+				case 14:
+					// a copy to a name nobody else touches is a read of ONE version of the source:
+					// the attributes and the bytes of the copy must belong together
+					rec := do("POST", "/storage/v1/b/bkt/o/"+name+"/rewriteTo/b/bkt/o/"+fmt.Sprintf("cp-%d-%d", g, i), nil, nil, nil)
+					var rr struct {
+						Resource struct {
+							ContentType string `json:"contentType"`
+							Md5Hash     string `json:"md5Hash"`
+						} `json:"resource"`
+					}
+					if rec.Code == 200 && json.Unmarshal(rec.Body.Bytes(), &rr) == nil && strings.HasPrefix(rr.Resource.ContentType, "text/x-g") {
+						want := md5b64([]byte("content-" + strings.TrimPrefix(rr.Resource.ContentType, "text/x-")))
+						if rr.Resource.Md5Hash != want {
+							raceFail("copy of %s carries contentType %q with md5Hash %s: the attributes of one version with the bytes of another", name, rr.Resource.ContentType, rr.Resource.Md5Hash)
+						}
+					}
 				case 8:
 					do("POST", "/storage/v1/b/bkt/o/"+name+"/compose", nil, map[string]string{"Content-Type": "application/json"}, []byte(`{"sourceObjects":[{"name":"o0"},{"name":"o1"}],"destination":{"contentType":"text/plain"}}`))
 				case 9, 10:
